@@ -143,9 +143,10 @@ class LogCtx(BaseCtx):
         if st in ("IDLE", "CONNECT"):
             for k, c in enumerate(live):
                 if c.state == "connecting":
-                    if rng.chance(0.2):
+                    if rng.chance(0.4 if cfg.get("sweep_history") else 0.2):
                         # the OS error text goes into the log; on a localised host it is not ASCII
-                        return ["conn_refuse", k, rng.pick([None, "Connexion refus\u00e9e", "\u62d2\u7edd\u8fde\u63a5", "Verbindungsaufbau abgelehnt"])]
+                        return ["conn_refuse", k, rng.pick([None, "Connexion refus\u00e9e", "\u62d2\u7edd\u8fde\u63a5", "Verbindungsaufbau abgelehnt",
+                                                            "\u63a5\u7d9a\u3092\u62d2\u5426\u3055\u308c\u307e\u3057\u305f"])]
                     return ["conn_ok", k]
             if w.reactor.due():
                 return ["fire", 0]
@@ -280,7 +281,7 @@ class SweepCtx(LogCtx):
             return None
         self.sent_sweep = True
         # draw a crash-free history with a scratch context
-        scratch = LogCtx(dict(self.cfg, n_crashes=0, n_restarts=self.cfg["n_restarts"]), self.tier)
+        scratch = LogCtx(dict(self.cfg, n_crashes=0, n_restarts=self.cfg["n_restarts"], sweep_history=True), self.tier)
         hist = []
         while True:
             op = scratch.choose(rng)
